@@ -10,7 +10,7 @@ import json, os, re
 import verif
 
 TWINS = {"twin_no_rewind": "InvSame", "twin_no_cleanup": "InvNoPartial", "twin_retry_perm": "InvPerm",
-         "twin_no_dedup": "ListNever"}
+         "twin_no_dedup": "ListNever", "twin_no_cleanup_perm": "InvNoPartial", "twin_dedup_info": "ListNever"}
 
 
 def parse_tla(s):
@@ -24,7 +24,7 @@ def run(ctx):
     if not th:
         os.environ["JAVA_TOOL_OPTIONS"] = (os.environ.get("JAVA_TOOL_OPTIONS", "") + " -XX:TieredStopAtLevel=1 -XX:ParallelGCThreads=2").strip()
     jobs = {}
-    ex = cf.ThreadPoolExecutor(max_workers=6)
+    ex = cf.ThreadPoolExecutor(max_workers=8)
     vcfg = "vec5" if th else "vec3"
     jobs["vec:" + vcfg] = ex.submit(ctx.tlc, "Retry", cfg="Retry_%s.cfg" % vcfg, workers=2, name="gen_" + vcfg, timeout=1800, heap="2g")
     for c in (["design", "design5"] if th else ["design"]):
@@ -40,8 +40,8 @@ def run(ctx):
     vec = os.path.join(ctx.work, "vectors.ndjson")
     with open(vec, "w") as fh:
         for s in vecs:
-            op, atomic, script, tail = parse_tla(s)
-            fh.write(json.dumps({"op": op, "atomic": atomic, "script": script, "tail": tail}) + "\n")
+            op, atomic, script, tail, vary = parse_tla(s)
+            fh.write(json.dumps({"op": op, "atomic": atomic, "script": script, "tail": tail, "vary": vary}) + "\n")
     out = ctx.go_test("internal/backend/retry", "^TestVerif_C35$", timeout=2400, env={"VERIF_VECTORS": vec})
     n, bad, lines = ctx.check_records("RetryProps", os.path.join(out, "recs.ndjson"), shard=5000)
     if bad:
@@ -63,8 +63,8 @@ def run(ctx):
             rec = json.loads(ln)
             why = [names[o] for o in parts.get(j + 1, [])] or ["rejected"]
             ctx.violate("c35/%s/%s/flag-%s" % (rec["op"], "+".join(why), "on" if rec["flag"] else "off"),
-                        "retry.Backend %s rejected by RetryProps!RecOK (%s): script=%s tail=%s atomic=%s flag=%s fast=%s -> attempts=%s ok=%s final=%s reported=%s" % (
-                            rec["op"], ",".join(why), rec["script"], rec["tail"], rec["atomic"], rec["flag"], rec["fast"],
+                        "retry.Backend %s rejected by RetryProps!RecOK (%s): script=%s tail=%s listing-varies=%s atomic=%s flag=%s fast=%s -> attempts=%s ok=%s final=%s reported=%s" % (
+                            rec["op"], ",".join(why), rec["script"], rec["tail"], rec.get("vary", "same"), rec["atomic"], rec["flag"], rec["fast"],
                             rec["faults"], rec["ok"], rec["final"], rec["reported"]), rec)
     design = []
     for k, f in jobs.items():
